@@ -1,4 +1,5 @@
 import DispensoVerif.Proofs.ConVec
+import DispensoVerif.Proofs.ConVecAlloc
 /-
 C32 — `dispenso::ConcurrentVector<T, Traits>` used sequentially.
 * Bucket layout (`firstBucketShift_ = s`): `bucketAndSubIndex` maps an index to a bucket and a
@@ -11,6 +12,9 @@ C32 — `dispenso::ConcurrentVector<T, Traits>` used sequentially.
 * Each operation has the `std::vector` semantics — `C32_sem_*` (facts about the contents after one
   `step` and about the reply, for every state satisfying the id invariant `WF`, which every
   reachable state satisfies: `C32_wf_reachable`, `C32_wf_step`).
+* Capacity / allocation layer (`Model/ConVecAlloc.lean`, second half of this file): which
+  `buffers_[b]` exist after every operation, for every realloc strategy and first-bucket shift —
+  `C32_alloc_*`.
 -/
 namespace Dispenso.ConVec
 
@@ -554,3 +558,167 @@ example : bucketAndSubIndex 3 7 = ⟨0, 7, 8⟩ ∧ bucketAndSubIndex 3 8 = ⟨1
   decide
 
 end Dispenso.ConVec
+
+/-! ## capacity and allocation (white-box layer)
+
+Model: `DispensoVerif/Model/ConVecAlloc.lean` — per vector `firstBucketShift_`, `size_`, the set of
+non-null `buffers_[b]`, the `shouldDealloc_` flags, a ghost "start of a live malloc block" bit per
+bucket and the `cv::alloc` / `cv::dealloc` counters; `allocAsNecessaryImpl` (single index and range
+variant with its two passes and wait loops), `reserve`, `shrink_to_fit`, `clear`, the reserving
+constructor, move / swap.  `c : Cfg` = realloc strategy, smallest first-bucket shift,
+`kMaxBuffers`, inline or heap buffer table.  All statements hold for every configuration with
+`2 ≤ kMaxBuffers` and every operation sequence. -/
+namespace Dispenso.ConVecAlloc
+open Dispenso.ConVec
+
+/-- every reachable pool satisfies the per-vector invariant `Inv` (allocated buckets form a prefix
+    containing buckets 0 and 1; the allocate-ahead condition; flags = block starts; ledger) -/
+theorem C32_alloc_inv_reachable (c : Cfg) (hmb : 2 ≤ c.mb) (ops : List Op) :
+    PInv c (runOps c St.init ops) :=
+  runOps_inv c hmb ops St.init (PInv.init c)
+
+/-- no operation of a sequential history waits forever for a bucket (the wait loops of
+    `allocAsNecessaryImpl` always find their buckets allocated) -/
+theorem C32_alloc_never_hangs (c : Cfg) (hmb : 2 ≤ c.mb) (ops : List Op) (op : Op) :
+    (step c (runOps c St.init ops) op).2.2 = false :=
+  (step_inv c hmb _ op (C32_alloc_inv_reachable c hmb ops)).2
+
+/-- every index below the size (and the index `size` itself) lies in an allocated bucket -/
+theorem C32_alloc_index_allocated (c : Cfg) (hmb : 2 ≤ c.mb) (ops : List Op) (o : Nat) (v : VA)
+    (hv : get (runOps c St.init ops) o = some v) (i : Nat) (hi : i ≤ v.size) :
+    v.bufs (bucketAndSubIndex v.shift i).bucket = true :=
+  alloc_of_le ((C32_alloc_inv_reachable c hmb ops).get hv).base
+    ((C32_alloc_inv_reachable c hmb ops).get hv).trig hi
+
+/-- allocate-ahead: once the index at `allocCheckIndex` of bucket `b` is in use, bucket `b + 1`
+    exists (what concurrent growth relies on: nobody will allocate it later) -/
+theorem C32_alloc_ahead (c : Cfg) (hmb : 2 ≤ c.mb) (ops : List Op) (o : Nat) (v : VA)
+    (hv : get (runOps c St.init ops) o = some v) (b : Nat)
+    (hb : bucketStart v.shift b + allocCheckIndex c.strat (bucketCap v.shift b) < v.size) :
+    v.bufs (b + 1) = true :=
+  ((C32_alloc_inv_reachable c hmb ops).get hv).trig b hb
+
+/-- `capacity()` formula: an index is below `capacity()` iff its bucket is allocated; hence
+    `size() ≤ capacity()` -/
+theorem C32_alloc_capacity (c : Cfg) (hmb : 2 ≤ c.mb) (ops : List Op) (o : Nat) (v : VA)
+    (hv : get (runOps c St.init ops) o = some v) :
+    (∀ i, i < capacity c.mb v ↔ v.bufs (bucketAndSubIndex v.shift i).bucket = true) ∧
+      v.size ≤ capacity c.mb v := by
+  have hI := (C32_alloc_inv_reachable c hmb ops).get hv
+  refine ⟨fun i => capacity_iff c v hI hmb i, ?_⟩
+  by_cases h0 : v.size = 0
+  · omega
+  · have := (capacity_iff c v hI hmb (v.size - 1)).2 (alloc_of_le hI.base hI.trig (by omega))
+    omega
+
+/-- the allocated buckets are a prefix `0 … k` with `k ≥ 1`, so `capacity()` is a power of two times
+    the first bucket: `capacity() = bucketStart (k + 1)` -/
+theorem C32_alloc_prefix (c : Cfg) (hmb : 2 ≤ c.mb) (ops : List Op) (o : Nat) (v : VA)
+    (hv : get (runOps c St.init ops) o = some v) :
+    v.bufs 0 = true ∧ v.bufs 1 = true ∧ (∀ a b, a ≤ b → v.bufs b = true → v.bufs a = true) ∧
+      ∀ b, v.bufs b = true → b < c.mb := by
+  have hI := (C32_alloc_inv_reachable c hmb ops).get hv
+  exact ⟨hI.base.b0, hI.base.b1, fun a b hab hb => pre_down hI.base.pre hab hb, fun b hb => hI.lt_mb hb⟩
+
+/-- `reserve(n)` ends (no hang) and afterwards `capacity() ≥ n`; size and shift are unchanged and no
+    allocated bucket is dropped -/
+theorem C32_alloc_reserve (c : Cfg) (hmb : 2 ≤ c.mb) (ops : List Op) (o : Nat) (v : VA)
+    (hv : get (runOps c St.init ops) o = some v) (n : Nat) :
+    ∃ v', reserve c.strat v n = some v' ∧ v'.size = v.size ∧ v'.shift = v.shift ∧
+      (v'.bufs c.mb = false → n ≤ capacity c.mb v') := by
+  have hI := (C32_alloc_inv_reachable c hmb ops).get hv
+  obtain ⟨v', hr, hinv, hs, hsh, hcov⟩ := reserve_inv c v n hI
+  refine ⟨v', hr, hs, hsh, ?_⟩
+  intro hb
+  by_cases h0 : n = 0
+  · omega
+  · have h1 := hcov (n - 1) (by omega)
+    rw [← hsh] at h1
+    have := (capacity_iff c v' (hinv hb) hmb (n - 1)).2 h1
+    omega
+
+/-- ledger of one vector: `cv::alloc` calls = `cv::dealloc` calls + the first block (+ the heap
+    buffer table) + the buckets whose pointer is the start of a live block; no block start was ever
+    dropped without a free (`leaked = 0`), no pointer that is not a block start was ever freed
+    (`badFree = 0`); on every allocated bucket `≥ 2` the `shouldDealloc_` flag says exactly whether
+    the pointer is a block start -/
+theorem C32_alloc_ledger (c : Cfg) (hmb : 2 ≤ c.mb) (ops : List Op) (o : Nat) (v : VA)
+    (hv : get (runOps c St.init ops) o = some v) :
+    v.nalloc = v.nfree + 1 + (if c.table then 1 else 0) + cnt c.mb v.starts ∧ v.leaked = 0 ∧ v.badFree = 0 ∧
+      (∀ b, 2 ≤ b → v.bufs b = true → v.flags b = v.starts b) ∧ (∀ b, v.starts b = true → v.bufs b = true) := by
+  have hI := (C32_alloc_inv_reachable c hmb ops).get hv
+  exact ⟨hI.count, hI.base.leaked0, hI.base.bad0, hI.base.fl, hI.base.st_sub⟩
+
+/-- the destructor frees every block of a vector: afterwards allocations = frees -/
+theorem C32_alloc_destroy_balanced (c : Cfg) (hmb : 2 ≤ c.mb) (ops : List Op) (o : Nat) (v : VA)
+    (hv : get (runOps c St.init ops) o = some v) :
+    (destroyVA c v).nalloc = (destroyVA c v).nfree ∧ (destroyVA c v).leaked = 0 ∧ (destroyVA c v).badFree = 0 := by
+  have := destroy_balanced c v ((C32_alloc_inv_reachable c hmb ops).get hv)
+  exact ⟨this.1, this.2.1, this.2.2.1⟩
+
+/-- once every vector has been destroyed, every block that was allocated has been freed exactly once -/
+theorem C32_alloc_all_freed (c : Cfg) (hmb : 2 ≤ c.mb) (ops : List Op)
+    (h : (runOps c St.init ops).vecs = []) :
+    totalAlloc (runOps c St.init ops) = totalFree (runOps c St.init ops) ∧
+      totalLeaked (runOps c St.init ops) = 0 ∧ totalBadFree (runOps c St.init ops) = 0 := by
+  have hI := C32_alloc_inv_reachable c hmb ops
+  unfold totalAlloc totalFree totalLeaked totalBadFree
+  rw [h]
+  simp only [List.map_nil, List.sum_nil, Nat.add_zero]
+  exact hI.2
+
+/-- growth never re-allocates: after `growByUninitialized(n)` / `emplace_back` every bucket that was
+    allocated still is (the stores of `allocAsNecessaryImpl` only hit null entries), and the new
+    size is covered -/
+theorem C32_alloc_growth_monotone (c : Cfg) (hmb : 2 ≤ c.mb) (ops : List Op) (o : Nat) (v : VA)
+    (hv : get (runOps c St.init ops) o = some v) (n : Nat) :
+    ∃ v', growRange c.strat v n = some v' ∧ v'.size = v.size + n ∧
+      ∀ k, v.bufs k = true → v'.bufs k = true := by
+  obtain ⟨v', h1, _, h3, _, h5⟩ := growRange_inv c v n ((C32_alloc_inv_reachable c hmb ops).get hv)
+  exact ⟨v', h1, h3, h5⟩
+
+/-- which buckets the range variant visits (design A.8): for the range `[i0, i0 + n)` it visits bucket
+    `b + 1` whenever the trigger index of bucket `b` lies in the range, and the capacity it computes
+    for a visited bucket is that bucket's capacity (so the single block it allocates is carved
+    correctly) -/
+theorem C32_alloc_range_targets (st : Strat) (s i0 n : Nat) :
+    (∀ b, i0 ≤ bucketStart s b + allocCheckIndex st (bucketCap s b) →
+        bucketStart s b + allocCheckIndex st (bucketCap s b) < i0 + n →
+        ∃ cap, (b + 1, cap) ∈ rangeTargets st (bucketAndSubIndex s i0) n (bucketAndSubIndex s (i0 + n))) ∧
+    (∀ k cap, (k, cap) ∈ rangeTargets st (bucketAndSubIndex s i0) n (bucketAndSubIndex s (i0 + n)) →
+        cap = bucketCap s k ∧ (bucketAndSubIndex s i0).bucket + 1 ≤ k) :=
+  ⟨fun b h1 h2 => inT_of_trig st s i0 n b h1 h2,
+   fun k cap h => ⟨target_cap st s i0 n k cap h, inT_ge st s i0 n k ⟨cap, h⟩⟩⟩
+
+/-! ### non-vacuity: concrete histories -/
+
+/-- kHalfBufferAhead, first bucket of 4 elements: `assign(7, x)` allocates bucket 2 (index 6 is the
+    trigger of bucket 1), growth to 9 then needs no further block; `shrink_to_fit` after `clear`
+    frees it; the destructor balances the ledger -/
+example :
+    let c : Cfg := { strat := .half, minShift := 2, mb := 12, table := true }
+    let s := runOps c St.init [.mk, .assign 0 7 1]
+    ((get s 0).map fun v => (v.shift, v.size, capacity c.mb v, mask c.mb v.bufs, mask c.mb v.flags)) = some (2, 7, 16, 7, 4) ∧
+    (step c s (.growBy 0 2)).2.2 = false ∧
+    totalAlloc (runOps c s [.growBy 0 2]) = 3 ∧
+    totalFree (runOps c s [.growBy 0 2, .clear 0, .shrinkToFit 0]) = 1 ∧
+    totalAlloc (runOps c s [.destroy 0]) = totalFree (runOps c s [.destroy 0]) := by
+  decide
+
+/-- the hang the allocate-ahead invariant excludes: the same vector with bucket 2 missing (what a
+    `reserve` that returns early leaves behind) spins in the wait loop when growth reaches index 8 -/
+example :
+    let v : VA := { VA.fresh 2 false with size := 7 }
+    (growRange .half v 2).isNone = true ∧ (pushOne .half { v with size := 8 }).isNone = true := by
+  decide
+
+/-- one block for several buckets: `reserve(40)` on a 4-element first bucket allocates buckets 2..4 as
+    a single block (only bucket 2 carries the dealloc flag), capacity becomes 64 -/
+example :
+    let c : Cfg := { strat := .asNeeded, minShift := 2, mb := 12, table := false }
+    let s := runOps c St.init [.mk, .reserve 0 40]
+    ((get s 0).map fun v => (capacity c.mb v, mask c.mb v.bufs, mask c.mb v.flags, v.nalloc, v.elems))
+      = some (64, 31, 4, 2, 64) := by
+  decide
+
+end Dispenso.ConVecAlloc
